@@ -8,6 +8,8 @@ import (
 	"fmt"
 	"hash/fnv"
 	"net/url"
+	"os"
+	"path/filepath"
 	"runtime"
 	"sort"
 	"strings"
@@ -72,6 +74,40 @@ func (l *Loader) load(pth string) (json.RawMessage, error) {
 		return nil, fmt.Errorf("mc: no such document %q", pth)
 	}
 	return json.RawMessage(doc), nil
+}
+
+// DefaultLoader is go-openapi/spec's own document loader (files / http), captured before any bundle is installed.
+var DefaultLoader = spec.PathLoader
+
+// RunFlattenOnDisk writes the bundle to dir and flattens it through spec's default loader (conformance of the loader seam).
+func RunFlattenOnDisk(b *Bundle, o Opts, dir string) (*Outcome, error) {
+	for f, d := range b.Files {
+		p := filepath.Join(dir, filepath.FromSlash(f))
+		if err := os.MkdirAll(filepath.Dir(p), 0o755); err != nil {
+			return nil, err
+		}
+		if err := os.WriteFile(p, []byte(d), 0o644); err != nil {
+			return nil, err
+		}
+	}
+	spec.PathLoader = DefaultLoader
+	mcrt.Reset(mcrt.Asc, nil, DefaultHorizon)
+	out := &Outcome{}
+	Guard(out, func() {
+		sw, err := LoadSwagger(b.Files[b.Root])
+		if err != nil {
+			out.Err = "load: " + err.Error()
+			return
+		}
+		err = analysis.Flatten(analysis.FlattenOpts{Spec: analysis.New(sw), BasePath: filepath.Join(dir, b.Root),
+			Minimal: o.Minimal, Expand: o.Expand, RemoveUnused: o.RemoveUnused, KeepNames: o.KeepNames, ContinueOnError: o.ContinueOnError})
+		if err != nil {
+			out.Err = err.Error()
+			return
+		}
+		out.Out = Marshal(sw)
+	})
+	return out, nil
 }
 
 // Install makes spec load documents from the bundle.
